@@ -83,8 +83,8 @@ fn nth_exhaustive(mut i: usize) -> (usize, Fault, usize) {
 
 // ---- generated documents ----------------------------------------------------------------------
 
-const NAMES: &[&str] = &["a", "b", "n1", "n10", "x&amp;y", "", " ", "é", "&lt;", "q\"", "&#65;", "n 2"];
-const WEIGHT_TEXTS: &[&str] = &["1", "1.5", "-2", "0", "1e3", "abc", "", " 1", "1 ", "1e999", "nan", "NaN", "inf", "-inf", "0x10", "1,5", "+1", ".5", "5.", "1e-400", "１"];
+const NAMES: &[&str] = &["a", "b", "n1", "n10", "x&amp;y", "", " ", "é", "&lt;", "q\"", "&#65;", "n 2", "a_name_that_is_longer_than_sixty_four_characters_0123456789_0123456789_0123456789", "R&amp;D", "&#38;"];
+const WEIGHT_TEXTS: &[&str] = &["1", "1.5", "-2", "0", "1e3", "abc", "", " ", "\n   ", " 1", "1 ", "1e999", "nan", "NaN", "inf", "-inf", "0x10", "1,5", "+1", ".5", "5.", "1e-400", "１"];
 
 fn grammar_doc(rng: &mut Rng) -> String {
     let q = if rng.chance(1, 5) { '\'' } else { '"' };
@@ -231,7 +231,7 @@ fn structural_fault(rng: &mut Rng, doc: &str) -> String {
         return format!("{}<", doc);
     }
     let (a, b) = *rng.pick(&spans);
-    match rng.below(8) {
+    match rng.below(9) {
         0 => format!("{}{}", &doc[..a], &doc[b..]),            // delete an element tag
         1 => format!("{}{}{}", &doc[..b], &doc[a..b], &doc[b..]), // duplicate a tag
         2 => {
@@ -273,6 +273,13 @@ fn structural_fault(rng: &mut Rng, doc: &str) -> String {
             match doc[a..b].find('"') {
                 Some(qp) => format!("{}{}{}", &doc[..a + qp + 1], ent, &doc[a + qp + 1..]),
                 None => format!("{}{}{}", &doc[..b], ent, &doc[b..]),
+            }
+        }
+        8 => {
+            // lengthen an attribute value (70 / 300 / 5000 characters)
+            match doc[a..b].find('"') {
+                Some(qp) => format!("{}{}{}", &doc[..a + qp + 1], "L".repeat(*rng.pick(&[70usize, 300, 5000])), &doc[a + qp + 1..]),
+                None => doc.to_string(),
             }
         }
         6 => {
